@@ -80,7 +80,18 @@ namespace
             auto& key = arr->at(0);
             auto& value = arr->at(1);
             // ToDo: Check key-type matches
-            data->map()[capture_key(key)] = value;
+            auto captured = capture_key(key);
+            // Would the map come to contain itself, directly or through the containers it is given?
+            std::vector<const sqf::runtime::data*> path{ data.get() };
+            if ((!captured.empty() && !captured.data()->recursion_test_(path)) ||
+                (!value.empty() && !value.data()->recursion_test_(path)))
+            { // Refused, nothing changes.
+                runtime.__logmsg(err::ArrayRecursion(runtime.context_active().current_frame().diag_info_from_position()));
+            }
+            else
+            {
+                data->map()[captured] = value;
+            }
         }
         else
         {
